@@ -14,4 +14,5 @@ PROPS = {
     'C07': {'modules': ['harness.h_c07', 'harness.p_sim']},
     'C08': {'modules': ['harness.h_c08', 'harness.p_sim']},
     'C16': {'modules': ['harness.h_c16']},
+    'C09': {'modules': ['harness.h_c09', 'harness.p_sim']},
 }
